@@ -10,9 +10,12 @@ from ..core import Case
 from ..ruleprops import violation
 
 RULE = ("seeded elections x {greedy, Equal Shares, Phragmen (selected set), welfare maximiser (welfare value)} presented in 7 ways: original, "
-        "voters shuffled, projects inserted in another order, costs and budget scaled by 1/3, 7, 10/7, 1000 (lexicographic tie-breaking); "
+        "voters shuffled, projects inserted in another order, costs and budget scaled by 1/3, 7, 10/7, 1000 (lexicographic tie-breaking; for the "
+        "maximiser under scaling: the chosen set valued on the original election); "
         "plus every case re-run in 3 fresh interpreters with distinct PYTHONHASHSEED under every shipped tie-breaking rule; plus the same call "
-        "twice in one process; non-trivial = at least 3 projects, at least 2 selected, and a tie structure (equal costs) present")
+        "twice in one process; plus an exact-arithmetic stress stream through the same presentations (costs proportional to support by a rational "
+        "factor, so that a common scaling by 1/3 or 10/7 leaves integral and fractional costs tied on support per cost at a non-dyadic "
+        "ratio with a budget that fits only some; cardinal scores above 2**53 whose totals differ by a unit) and a stream of small elections with a binding budget (half of them for the maximiser); non-trivial = at least 3 projects, at least 2 selected, and a tie structure (equal costs) present")
 ASSUMPTIONS = ["the scaling clause is claimed for measures that are homogeneous in the costs; log-of-cost measures are a listed known finding (K2)"]
 TRUSTED = ["CPython's hash-seeded set/dict iteration order is exercised through PYTHONHASHSEED (3 values in quick, 5 in thorough), not modelled"]
 
@@ -23,6 +26,34 @@ HASHSEEDS_THOROUGH = [1, 17, 4242, 99991, 31337]
 
 def scaled(case: Case, lam: F) -> Case:
     return Case([(n, c * lam) for n, c in case.projects], case.budget * lam, case.btype, case.ballots, case.seed, **case.cfg)
+
+
+# exact additive measures; each is homogeneous (degree 0 or 1) in the costs, so the optimal sets do not depend on the unit
+SCALE_WELFARE_SATS = {"Cardinality_Sat", "Relative_Cardinality_Sat", "Cost_Sat", "Relative_Cost_Approx_Normaliser_Sat", "Effort_Sat",
+                      "Additive_Cardinal_Sat", "Additive_Borda_Sat"}
+
+
+def welfare_back(case, cfg, built, ids):
+    """total satisfaction, on the election `built`, of the projects with the given ids (ids are name ranks: the same in every presentation)"""
+    return worker.welfare_of(case, cfg, built, [built.projs[case.names[i]] for i in ids])
+
+
+def scaled_cfg(cfg, lam: F):
+    c = dict(cfg)
+    if c.get("loads_per_voter") is not None:
+        # initial loads are amounts of money per supporter: they scale with the costs
+        c["loads_per_voter"] = [x * lam for x in c["loads_per_voter"]]
+    return c
+
+
+def canonical_voters(case: Case, cfg):
+    """the same election with the voters listed in a fixed (sorted) order; per-voter initial loads travel with the voters"""
+    idx = sorted(range(len(case.ballots)), key=lambda i: (str(case.ballot_key(case.ballots[i])), i))
+    c = Case(case.projects, case.budget, case.btype, [case.ballots[i] for i in idx], case.seed, **case.cfg)
+    g = dict(cfg)
+    if g.get("loads_per_voter") is not None:
+        g["loads_per_voter"] = [cfg["loads_per_voter"][i] for i in idx]
+    return c, g
 
 
 def answer(case, cfg):
@@ -56,14 +87,51 @@ def pairs(ctx, n):
         yield case, cfg
 
 
-def run(ctx, n=None, compare=True, hashseeds=None):
+def exact_pairs(ctx, n):
+    """exact-arithmetic stress (see core.gen_proportional_election / gen_huge_election): what a common scaling must not change"""
+    rng = ctx.rng
+    for _ in range(n):
+        if rng.random() < 0.7:
+            case = core.gen_proportional_election(rng, btypes=("app", "app", "card"))
+            ctx.count("stream", "exact:proportional-costs")
+        else:
+            case = core.gen_huge_election(rng)
+            ctx.count("stream", "exact:huge-scores")
+        cfg = rulegen.gen_count_cfg(rng, case, rules=("greedy", "greedy", "mes", "phragmen"), allow_refuse=False)
+        cfg["res"] = True if len(case.projects) > 5 else cfg["res"]
+        yield case, cfg
+
+
+def tight_pairs(ctx, n):
+    """small elections with a binding budget (core.gen_tight_election): the maximiser's bound-and-prune search and the sequential
+    rules after several purchases, where a slip that depends on the unit of the costs or on the presentation changes the result"""
+    rng = ctx.rng
+    for k in range(n):
+        case = core.gen_tight_election(rng, btypes=("app", "app", "app", "card", "ord"), m=(3, 7), n=(2, 7))
+        rule = ("maxw", "greedy", "maxw", "mes", "maxw", "phragmen")[k % 6]
+        if rule == "phragmen" and case.btype != "app":
+            rule = "maxw"
+        cfg = rulegen.gen_rule_cfg(rng, case, rules=(rule,), allow_refuse=False)
+        cfg["res"] = True if rule == "maxw" or len(case.projects) > 5 else cfg["res"]
+        ctx.count("stream", "tight-budget:" + rule)
+        yield case, cfg
+
+
+def all_pairs(ctx, n, n_exact):
+    yield from pairs(ctx, n)
+    yield from exact_pairs(ctx, n_exact)
+    yield from tight_pairs(ctx, (n_exact * 3) // 4)
+
+
+def run(ctx, n=None, compare=True, hashseeds=None, n_exact=None):
     ctx.rule = RULE
     n = n or ctx.scale(1500, 8000)
+    n_exact = ctx.scale(800, 5000) if n_exact is None else n_exact
     rng = ctx.rng
     batch = []  # for the hash-seed workers
     base_answers = []
     lines, line_info = [], []
-    for case, cfg in pairs(ctx, n):
+    for case, cfg in all_pairs(ctx, n, n_exact):
         if ctx.budget_s is not None and ctx.elapsed() > ctx.budget_s:
             break
         ctx.evaluations += 1
@@ -111,7 +179,11 @@ def run(ctx, n=None, compare=True, hashseeds=None):
             lex1["loads_per_voter"] = [lex["loads_per_voter"][i] for i in perm]
         a1, *_ = answer(c1, lex1)
         if a1 != a0:
-            ctx.violations.append(violation("outcome changes when the voters are listed in another order", c1, lex1, impl=a1, expected=a0, sig=dict(sig0, clause="voters"), original=case.to_json()))
+            ac, *_ = answer(*canonical_voters(c1, lex1))
+            if a1 != ac:
+                ctx.violations.append(violation("outcome changes when the voters are listed in another order", c1, lex1, impl=a1, expected=a0, sig=dict(sig0, clause="voters"), original=case.to_json()))
+            else:
+                ctx.violations.append(violation("outcome changes when the voters are listed in another order", case, lex, impl=a0, expected=a1, sig=dict(sig0, clause="voters"), original=c1.to_json()))
         # projects inserted in another order
         order = [nm for nm, _ in case.projects]
         rng.shuffle(order)
@@ -122,16 +194,24 @@ def run(ctx, n=None, compare=True, hashseeds=None):
         # common scaling
         for lam in SCALES:
             cs = scaled(case, lam)
-            lexs = dict(lex)
-            if lexs.get("loads_per_voter") is not None:
-                # initial loads are amounts of money per supporter: they scale with the costs
-                lexs["loads_per_voter"] = [x * lam for x in lexs["loads_per_voter"]]
-            a3, *_ = answer(cs, lexs)
+            lexs = scaled_cfg(lex, lam)
+            a3, _b3, _c3, ans3 = answer(cs, lexs)
             if cfg["rule"] == "maxw":
-                continue  # the welfare itself scales with the measure; only the other clauses are claimed for it
+                # the welfare value itself is expressed in the unit of the costs for some measures; what must not change is
+                # the welfare ATTAINED: the set chosen on the scaled election, valued on the original election, is worth
+                # exactly what the set chosen on the original election is worth (exact measures, all homogeneous in the costs)
+                if cfg.get("sat") in SCALE_WELFARE_SATS and ans0[0] == "ok" and ans3[0] == "ok":
+                    ctx.count("clause", "maxw:scale_welfare")
+                    w_back = "W=" + welfare_back(case, lex, built0, ans3[1])
+                    if w_back != a0:
+                        ctx.violations.append(violation(f"welfare attained by the maximiser changes when costs and budget are multiplied by {lam} (valued on the original election)",
+                                                        case, lex, impl=w_back, expected=a0, sig=dict(sig0, clause="scale_welfare"), scale=core.q2s(lam)))
+                        break
+                continue
             if a3 != a0:
-                ctx.violations.append(violation(f"outcome changes when costs and budget are multiplied by {lam}", cs, lexs, impl=a3, expected=a0,
-                                                sig=dict(sig0, clause="scale"), original=case.to_json()))
+                # stored as the ORIGINAL election + the factor: the replay (and the shrinker) recompute both presentations
+                ctx.violations.append(violation(f"outcome changes when costs and budget are multiplied by {lam}", case, lex, impl=a3, expected=a0,
+                                                sig=dict(sig0, clause="scale"), scale=core.q2s(lam), scaled_case=cs.to_json()))
                 break
         if len(case.projects) >= 3 and ans0[0] == "ok" and len(ans0[1]) >= 2 and rulegen.has_tie_structure(case):
             ctx.nontrivial.add(case.key() + json.dumps(ruleprops.cfg_json(cfg), sort_keys=True))
@@ -152,7 +232,7 @@ def run(ctx, n=None, compare=True, hashseeds=None):
                 o = "W=" + o.split(" W=")[1]
             if o != a_cfg.strip():
                 ctx.violations.append(violation(f"outcome differs in an interpreter started with PYTHONHASHSEED={hs}", case, cfg, impl=o, expected=a_cfg,
-                                                sig={"rule": cfg["rule"], "sat": cfg.get("sat"), "clause": "hashseed", "tie": cfg.get("tie")}, pythonhashseed=hs))
+                                                sig={"rule": cfg["rule"], "sat": cfg.get("sat"), "clause": "hashseed", "tie": cfg.get("tie")}, pythonhashseed=hs, worker_hashseed=hs))
     if compare and lines:
         outs = core.run_driver(lines)
         for line, out, (impl_s, case, cfg) in zip(lines, outs, line_info):
@@ -162,7 +242,7 @@ def run(ctx, n=None, compare=True, hashseeds=None):
 
 
 def search(ctx, disagreements):
-    run(ctx, n=2500, compare=False)
+    run(ctx, n=2500, compare=False, n_exact=2500)
 
 
 def replay(payload):
@@ -170,7 +250,49 @@ def replay(payload):
     cfg = ruleprops.cfg_from_json(payload["cfg"])
     exp = payload.get("expected")
     hs = payload.get("pythonhashseed")
-    if hs is not None and payload.get("sig", {}).get("clause") == "hashseed":
+    if payload.get("sig", {}).get("clause") == "scale_welfare":
+        a0, built0, _c, ans0 = answer(case, cfg)
+        lam = F(payload["scale"])
+        _a, _b, _c2, ans3 = answer(scaled(case, lam), cfg)
+        if ans0[0] != "ok" or ans3[0] != "ok":
+            return True, "no welfare to compare on the replayed input"
+        w_back = "W=" + welfare_back(case, cfg, built0, ans3[1])
+        if w_back != a0:
+            return False, f"still differs: scaled by {lam} the maximiser attains {w_back} (valued on the original election) vs {a0}"
+        return True, "welfare attained agrees across the scaling on the replayed input: " + a0
+    clause = payload.get("sig", {}).get("clause")
+    if clause == "scale" and payload.get("scale") is not None:
+        lam = F(payload["scale"])
+        a0, *_ = answer(case, cfg)
+        a3, *_ = answer(scaled(case, lam), scaled_cfg(cfg, lam))
+        if a3 != a0:
+            return False, f"still differs: {a3} after multiplying costs and budget by {lam} vs {a0}"
+        return True, "the scaled presentation agrees on the replayed input: " + a0
+    if clause == "voters":
+        a1, *_ = answer(case, cfg)
+        ac, *_ = answer(*canonical_voters(case, cfg))
+        if a1 != ac:
+            return False, f"still differs: {a1} vs {ac} with the voters listed in sorted order"
+        return True, "voter orders agree on the replayed input: " + a1
+    if clause == "projects" and cfg.get("order") is not None:
+        a2, *_ = answer(case, cfg)
+        a0, *_ = answer(case, {k: v for k, v in cfg.items() if k != "order"})
+        if a2 != a0:
+            return False, f"still differs: {a2} with insertion order {cfg['order']} vs {a0}"
+        return True, "insertion orders agree on the replayed input: " + a2
+    if clause == "hashseed" and payload.get("worker_hashseed") is not None:
+        # 'pythonhashseed' of a stored violation is the seed of the checking process (vcheck re-executes the replay under it);
+        # the second interpreter's seed is 'worker_hashseed'.  Both sides are recomputed.
+        whs = payload["worker_hashseed"]
+        want = dict(cfg, want_welfare=True) if cfg["rule"] == "maxw" else cfg
+        o = worker.run_batch([{"case": case.to_json(), "cfg": ruleprops.cfg_json(want)}], whs)[0].strip()
+        if cfg["rule"] == "maxw" and " W=" in o:
+            o = "W=" + o.split(" W=")[1]
+        base, *_ = answer(case, cfg)
+        if o != base.strip():
+            return False, f"still differs: {o} in an interpreter started with PYTHONHASHSEED={whs} vs {base} in this one"
+        return True, "both interpreters agree on the replayed input: " + o
+    if hs is not None and clause == "hashseed":
         out = worker.run_batch([{"case": case.to_json(), "cfg": ruleprops.cfg_json(cfg)}], hs)[0].strip()
     else:
         out, *_ = answer(case, cfg)
